@@ -8,6 +8,10 @@ mod util;
 
 use report::{Ctx, Tier};
 
+/// Counting allocator (per-thread live / peak byte counters) used by the allocation oracles.
+#[global_allocator]
+static GLOBAL: env::alloc::Counting = env::alloc::Counting;
+
 fn usage() -> ! {
     eprintln!("usage: verif check <id> --tier quick|thorough | verif replay <file> | verif list");
     std::process::exit(2);
